@@ -38,6 +38,11 @@ CLAIMED = {
             "strings, slices of every primitive, slices of strings/byte slices over all contents up to the stated lengths (all length "
             "combinations); order axioms on triples. Not decidable here: the ordering of bool (Kani 0.68 mis-models `<` on bool) - only "
             "bool equality is claimed. Open finding: exhausted RangeInclusive.", "DESIGN.md#c16"),
+    "C19": (BMC + "the std Option/Result methods, `?`, core::cmp::{min,max,..}; generated rebind programs are first compiled (acceptance) then solver-checked",
+            "All payloads are 8-bit and fully symbolic and closures come from symbolic xor/mask families with call counters, so each "
+            "harness is exhaustive in the values; macro forms (closure / function path) and the rebind program family (arity 1..6 x "
+            "{place, let, typed let, _} x {rebind_if_ok with/without code, try_rebind}) are enumerated (seeded sample above arity 2/3). A "
+            "generated program that rustc rejects is reported as a violation with the program as replay.", "DESIGN.md#c19"),
     "C04": (BMC + "a naive first/last-occurrence reference, all byte values, symbolic haystack and pattern",
             "For every haystack up to the stated byte length and every pattern (str, char, [u8], [u8;N]) up to the stated length, over "
             "the full byte alphabet, the SAT solver shows find/rfind/contains/find_skip/find_keep/rfind_skip/rfind_keep/split_once/"
